@@ -80,6 +80,19 @@ func newDrvEngine(w *World, name string, props []string) (*scanEngine, error) {
 				return nil, fmt.Errorf("drv table %q: %v", rest, err)
 			}
 			dv.facts = append(dv.facts, &drvFact{name: strings.TrimSpace(rest[:i]), expr: e})
+		case "variant-at":
+			i := strings.Index(rest, ":")
+			if i < 0 {
+				return nil, fmt.Errorf("drv variant-at %q: expected `<cut> : <expr>`", rest)
+			}
+			e, err := parseCExpr(strings.TrimSpace(rest[i+1:]))
+			if err != nil {
+				return nil, fmt.Errorf("drv variant-at %q: %v", rest, err)
+			}
+			if se.variants == nil {
+				se.variants = map[string]*CExpr{}
+			}
+			se.variants[strings.TrimSpace(rest[:i])] = e
 		case "lr-discipline":
 			dv.lrAssumed = true
 			dv.lrText = rest
